@@ -855,7 +855,9 @@ fn check_phase(b: &Bench, dag: bool, clones: bool, qualified: &[String], p: &Pha
             Ok(())
         }
         Some(ErrKind::Deadlock(_)) | Some(ErrKind::MessageLoss(_)) if dag => Err(mfail(
-            &["C06", "C04"],
+            // during SimInit::init also C16: a message sent to a model before its init ran was
+            // kept but never processed
+            if p.label.starts_with("init") { &["C06", "C04", "C16"] } else { &["C06", "C04"] },
             "false-stall-report",
             format!(
                 "{}: the run reported {:?} on an acyclic bench without orphan mailboxes, where every message can be processed ({} handlers expected, {} begun)",
